@@ -9,6 +9,7 @@ from __future__ import annotations
 import errno
 import socket as _real_socket
 import types
+import weakref
 
 from .facades import K
 from .kernel import TIMEOUT
@@ -33,6 +34,10 @@ class SimNet:
         self.taps: list = []  # callables(direction_label, conn_id, bytes)
         self.refuse_all = False
         kernel.net = self
+
+    def listener(self, key):
+        ref = self.listeners.get(key)
+        return None if ref is None else ref()
 
     def delay(self):
         if self.jitter:
@@ -115,7 +120,7 @@ class SimSocket:
     def bind(self, addr):
         self._check_open()
         key = (str(addr[0]), int(addr[1]))
-        cur = self._net.listeners.get(key)
+        cur = self._net.listener(key)
         if cur is not None and cur._fd >= 0 and cur is not self:
             raise _err(errno.EADDRINUSE, "Address already in use")
         self._addr = key
@@ -124,7 +129,9 @@ class SimSocket:
         self._check_open()
         self._listening = True
         self._backlog = max(1, backlog)
-        self._net.listeners[self._addr] = self
+        # weak reference: like a real socket object, a listening socket that nobody references any more is closed by
+        # CPython's reference counting (secsgem relies on that when a server thread ends without closing its socket)
+        self._net.listeners[self._addr] = weakref.ref(self)
 
     def accept(self):
         k = K()
@@ -147,7 +154,7 @@ class SimSocket:
         key = (str(addr[0]), int(addr[1]))
         if net.connect_delay:
             k.sleep(net.connect_delay)
-        lst = net.listeners.get(key)
+        lst = net.listener(key)
         if net.refuse_all or lst is None or lst._fd < 0 or not lst._listening or len(lst._accept_q) >= lst._backlog + 1:
             k.fault("connect_refused")
             raise ConnectionRefusedError(errno.ECONNREFUSED, "Connection refused")
@@ -323,7 +330,7 @@ class SimSocket:
             return
         self._fd = -1
         if self._listening:
-            if self._net.listeners.get(self._addr) is self:
+            if self._net.listener(self._addr) is self:
                 del self._net.listeners[self._addr]
             # connections waiting in the accept queue are reset
             for s in self._accept_q:
@@ -343,6 +350,15 @@ class SimSocket:
 
     def detach(self):
         return self._fd
+
+    def __del__(self):
+        # garbage collected while open: CPython closes the descriptor
+        try:
+            if self._fd >= 0 and self._listening and not self._net.kernel.ending:
+                self._net.kernel.probe("listening_socket_closed_by_gc")
+                self.close()
+        except Exception:  # noqa: BLE001
+            pass
 
     def __enter__(self):
         return self
